@@ -926,6 +926,14 @@ impl ServerDb {
 }
 
 fn current_timestamp() -> u64 {
+    #[cfg(agdb_verif)]
+    return (SystemTime::now()
+        .duration_since(UNIX_EPOCH)
+        .unwrap_or_default()
+        .as_secs() as i64
+        + crate::verif_hooks::clock_offset()) as u64;
+
+    #[cfg(not(agdb_verif))]
     SystemTime::now()
         .duration_since(UNIX_EPOCH)
         .unwrap_or_default()
